@@ -7,6 +7,8 @@ import (
 	"math/rand/v2"
 	"net"
 	"reflect"
+	"sort"
+	"strings"
 	"testing"
 	"time"
 
@@ -571,6 +573,57 @@ func (s *S8) expect() []*refcodec.Node {
 	}
 }
 
+// S10: an embedded struct that is not the first field, after a tagged field and
+// after an omitempty pointer that may be absent
+type S10Emb struct {
+	U uint32 `avp:"G-U32"`
+	S string `avp:"G-UTF8"`
+}
+type S10 struct {
+	Oct []byte  `avp:"G-Octets"`
+	P   *uint64 `avp:"G-U64,omitempty"`
+	S10Emb
+	E int32 `avp:"G-Enum"`
+}
+
+func (s *S10) fill(r *rand.Rand) {
+	*s = S10{Oct: []byte(rStr(r, true)), E: int32(rI(r, refcodec.Enumerated))}
+	s.U, s.S = uint32(rI(r, refcodec.Unsigned32)), rStr(r, true)
+	if r.IntN(2) == 0 {
+		v := uint64(rI(r, refcodec.Unsigned64))
+		s.P = &v
+	}
+}
+func (s *S10) expect() []*refcodec.Node {
+	o := []*refcodec.Node{nStr(9001, fM, refcodec.OctetString, s.Oct)}
+	if s.P != nil {
+		o = append(o, nU(9010, fM, refcodec.Unsigned64, *s.P))
+	}
+	return append(o, nU(9009, fM, refcodec.Unsigned32, uint64(s.U)), nStr(9002, fM, refcodec.UTF8String, []byte(s.S)), nI(9013, fM, refcodec.Enumerated, int64(s.E)))
+}
+
+// S11: the embedded struct last, the only tagged field before it absent
+type S11 struct {
+	P *string `avp:"G-Ident,omitempty"`
+	S10Emb
+}
+
+func (s *S11) fill(r *rand.Rand) {
+	*s = S11{}
+	s.U, s.S = uint32(rI(r, refcodec.Unsigned32)), rStr(r, true)
+	if r.IntN(3) == 0 {
+		v := rStr(r, false)
+		s.P = &v
+	}
+}
+func (s *S11) expect() []*refcodec.Node {
+	var o []*refcodec.Node
+	if s.P != nil {
+		o = append(o, nStr(9003, fM, refcodec.DiameterIdentity, []byte(*s.P)))
+	}
+	return append(o, nU(9009, fM, refcodec.Unsigned32, uint64(s.U)), nStr(9002, fM, refcodec.UTF8String, []byte(s.S)))
+}
+
 // S9: the default dictionary (a CER-like struct)
 type S9 struct {
 	OriginHost  datatype.DiameterIdentity `avp:"Origin-Host"`
@@ -729,6 +782,8 @@ func TestC18(t *testing.T) {
 		{"S7-omitempty", func() shape { return new(S7b) }, g, 8388000, ""},
 		{"S8-vendor-specific", func() shape { return new(S8) }, g, 8388000, ""},
 		{"S9-default-dictionary", func() shape { return new(S9) }, def, 257, ""},
+		{"S10-embedded-not-first", func() shape { return new(S10) }, g, 8388000, ""},
+		{"S11-embedded-last-after-absent-field", func() shape { return new(S11) }, g, 8388000, ""},
 	}
 	n := rec.N(60000, 3000000)
 	rec.Suite("values", n, func(c *ev.Case) {
@@ -793,4 +848,177 @@ func TestC18(t *testing.T) {
 			c.Sample(map[string]any{"shape": e.name, "value": fmt.Sprintf("%+v", src), "avps": refcodec.Describe(want), "wire": ev.Hex(wire)})
 		}
 	})
+}
+
+// goTypeFor: the native Go field type used for a dictionary data type.
+func goTypeFor(k refcodec.Kind) (reflect.Type, bool) {
+	switch k {
+	case refcodec.Unsigned32:
+		return reflect.TypeOf(uint32(0)), true
+	case refcodec.Unsigned64:
+		return reflect.TypeOf(uint64(0)), true
+	case refcodec.Integer32, refcodec.Enumerated:
+		return reflect.TypeOf(int32(0)), true
+	case refcodec.Integer64:
+		return reflect.TypeOf(int64(0)), true
+	case refcodec.UTF8String, refcodec.DiameterIdentity, refcodec.DiameterURI, refcodec.IPFilterRule:
+		return reflect.TypeOf(""), true
+	case refcodec.OctetString:
+		return reflect.TypeOf([]byte(nil)), true
+	}
+	return nil, false
+}
+
+// TestC18Apps: struct types generated from the dictionary (reflect.StructOf)
+// and used for messages of several applications in turn: the AVP a tag name
+// produces must be the one the dictionary resolves for the message's own
+// application, whatever the type was used with before.
+func TestC18Apps(t *testing.T) {
+	rec := ev.Open(t, "C18")
+	defer rec.Close()
+	ctx := defCtx(t)
+	// names that resolve differently (code, vendor id or M flag) for two applications
+	apps := []uint32{0, 1, 4, 16777238, 16777251, 16777265, 16777236}
+	type variant struct {
+		app uint32
+		def *refdictAVP
+	}
+	names := map[string]bool{}
+	for _, d := range ctx.Set.AVPs() {
+		names[d.Name] = true
+	}
+	type entry struct {
+		name string
+		apps []uint32
+	}
+	var entries []entry
+	for n := range names {
+		seen := map[string]bool{}
+		var as []uint32
+		for _, a := range apps {
+			d, ok := ctx.Ix.FindAVPByName(a, n, 0xFFFFFFFF)
+			if !ok {
+				continue
+			}
+			if _, ok := goTypeFor(kindOf(d.Type)); !ok {
+				continue
+			}
+			key := fmt.Sprintf("%d/%d/%v/%s", d.Code, d.Vendor, strings.Contains(d.Must, "M"), d.Type)
+			if !seen[key] {
+				seen[key] = true
+				as = append(as, a)
+			}
+		}
+		if len(as) >= 2 {
+			entries = append(entries, entry{n, as})
+		}
+	}
+	sort.Slice(entries, func(i, j int) bool { return entries[i].name < entries[j].name })
+	if len(entries) == 0 {
+		t.Fatalf("harness self-check: no AVP name resolves differently for two applications of the default dictionary")
+	}
+	rec.Note(fmt.Sprintf("%d AVP names resolve differently for at least two applications", len(entries)))
+	rec.Suite("same-type-several-applications", len(entries)*2*rec.N(2, 20), func(c *ev.Case) {
+		e := entries[c.I%len(entries)]
+		order := append([]uint32(nil), e.apps...)
+		if (c.I/len(entries))%2 == 1 {
+			for i, j := 0, len(order)-1; i < j; i, j = i+1, j-1 {
+				order[i], order[j] = order[j], order[i]
+			}
+		}
+		d0, _ := ctx.Ix.FindAVPByName(order[0], e.name, 0xFFFFFFFF)
+		ft, _ := goTypeFor(kindOf(d0.Type))
+		// a fresh struct type for this case, with a second field to keep it company
+		typ := reflect.StructOf([]reflect.StructField{
+			{Name: "F", Type: ft, Tag: reflect.StructTag(fmt.Sprintf(`avp:"%s"`, e.name))},
+			{Name: "Host", Type: reflect.TypeOf(""), Tag: `avp:"Origin-Host"`},
+			{Name: fmt.Sprintf("Pad%d", c.I), Type: reflect.TypeOf(int8(0))},
+		})
+		c.Class("apps/%s", e.name)
+		for round := 0; round < 2; round++ {
+			for _, app := range order {
+				d, _ := ctx.Ix.FindAVPByName(app, e.name, 0xFFFFFFFF)
+				if k2, _ := goTypeFor(kindOf(d.Type)); k2 != ft {
+					continue // another data type for this application: another Go type would be needed
+				}
+				src := reflect.New(typ)
+				var val any
+				switch ft.Kind() {
+				case reflect.Uint32:
+					v := c.R.Uint32()
+					src.Elem().Field(0).SetUint(uint64(v))
+					val = uint64(v)
+				case reflect.Uint64:
+					v := c.R.Uint64()
+					src.Elem().Field(0).SetUint(v)
+					val = v
+				case reflect.Int32:
+					v := int32(c.R.Uint32())
+					src.Elem().Field(0).SetInt(int64(v))
+					val = int64(v)
+				case reflect.Int64:
+					v := int64(c.R.Uint64())
+					src.Elem().Field(0).SetInt(v)
+					val = v
+				case reflect.String:
+					v := rStr(c.R, true)
+					src.Elem().Field(0).SetString(v)
+					val = []byte(v)
+				case reflect.Slice:
+					v := []byte(rStr(c.R, true))
+					src.Elem().Field(0).SetBytes(v)
+					val = v
+				}
+				src.Elem().Field(1).SetString("h.example")
+				want := &refcodec.Node{Code: d.Code, Vendor: d.Vendor, Kind: kindOf(d.Type)}
+				if strings.Contains(d.Must, "M") {
+					want.Flags |= fM
+				}
+				if d.Vendor != 0 {
+					want.Flags |= fV
+				}
+				switch v := val.(type) {
+				case uint64:
+					want.U = v
+				case int64:
+					want.I = v
+				case []byte:
+					want.B = v
+				}
+				m := diam.NewMessage(257, diam.RequestFlag, app, 1, 2, ctx.Parser)
+				var err error
+				if p, bad := guard(func() { err = m.Marshal(src.Interface()) }); bad || err != nil {
+					c.Fail(ev.Sig{"op": "marshal-error", "shape": "generated"}, nil, nil, "Marshal of {%s %s} for application %d: err=%v %s", e.name, ft, app, err, p)
+					return
+				}
+				got, terr := lib.ToNodes(m.AVP)
+				if terr != nil || len(got) != 2 {
+					c.Fail(ev.Sig{"op": "marshal-avps", "shape": "generated"}, nil, nil, "Marshal produced %d AVPs (%v)", len(got), terr)
+					return
+				}
+				if dd := refcodec.Equal([]*refcodec.Node{want}, got[:1], ""); dd != "" {
+					c.Fail(ev.Sig{"op": "marshal-avps", "shape": "generated-several-applications"}, nil, nil,
+						"tag %q marshalled for application %d (applications used with this struct type so far, in order: %v, round %d): %s; the dictionary resolves it to code %d vendor %d must=%q", e.name, app, order, round, dd, d.Code, d.Vendor, d.Must)
+					return
+				}
+				dst := reflect.New(typ)
+				if p, bad := guard(func() { err = m.Unmarshal(dst.Interface()) }); bad || err != nil {
+					c.Fail(ev.Sig{"op": "unmarshal-direct", "shape": "generated"}, nil, nil, "Unmarshal: err=%v %s", err, p)
+					return
+				}
+				if dd := sameValue(src.Elem().Field(0), dst.Elem().Field(0), e.name); dd != "" {
+					c.Fail(ev.Sig{"op": "roundtrip-direct", "shape": "generated-several-applications"}, nil, nil, "tag %q for application %d: %s", e.name, app, dd)
+					return
+				}
+				c.Event("app_marshals", 1)
+			}
+		}
+	})
+}
+
+type refdictAVP = struct{}
+
+func kindOf(typeName string) refcodec.Kind {
+	k, _ := refcodec.KindOf(typeName)
+	return k
 }
